@@ -6,6 +6,14 @@ ROOT = os.path.dirname(os.path.dirname(os.path.abspath(__file__)))
 
 # id -> (technique, level text, level note, design ref)
 CHECKS = {
+    "C01": ("Hypothesis-generated transforms/parameters/inputs (special points constructed) vs slogdet of autograd and "
+            "finite-difference Jacobians in float64; one-sided-derivative hull at kinks",
+            "Exploration: generated zoo transforms (all classes, composites, Inverse wrappers, images, context, cache priming) "
+            "x parameter regimes x in-domain inputs with knots/end-points/tail bounds constructed; forward log-abs-det compared "
+            "per row with the log|det| of the autograd Jacobian taken inside the batch, finite differences as second opinion.",
+            "Trusts torch autograd (cross-checked by FD on smooth maps); |unnormalised parameter| kept to O(8); rows whose "
+            "oracle is ill-conditioned or saturating (exp/tanh/sigmoid overflow) are counted inconclusive, not passed.",
+            "DESIGN.md 3/C01"),
     "C20": ("exhaustive small-shape enumeration + Hypothesis generation against numpy reference models; bit-level "
             "argument-unchanged comparison",
             "Exploration: every utils helper on an exhaustive grid of small shapes/integer arguments and on generated "
